@@ -139,7 +139,13 @@ SearchRangesNonEmpty == (stage = "done" /\ outcome = "OK") =>
            \E s \in 0..DataLen : \E e \in s..DataLen : e - s >= 2 * m /\ e - s <= (IF 2 * m + loff < DataLen THEN 2 * m + loff ELSE DataLen))
     /\ (det = "MovingWindow" => bw >= 1 /\ 2 * bw <= DataLen)
 
+\* the number of candidates the search visits for an OK grid point: exact for the moving window (splits b..n-b),
+\* "at least one" (written 1) for the binary segmentations, 0 = not applicable
+SearchCount == IF det = "MovingWindow" THEN DataLen - 2 * bw + 1
+               ELSE IF det \in {"SeededBinarySegmentation", "CircularBinarySegmentation"} THEN 1 ELSE 0
+
 EmitDone == (Emit /\ stage = "done") =>
     PrintT(<<"CASE", ToJson([det |-> det, scale |-> scale, scale2 |-> scale2, m |-> m, loff |-> loff, growth |-> growth, mxoff |-> mxoff, bw |-> bw,
-                             lohi |-> lohi, level |-> level, ms |-> ms, n |-> DataLen, nan |-> nan, p |-> p, expect |-> ExpectedClass])>>)
+                             lohi |-> lohi, level |-> level, ms |-> ms, n |-> DataLen, nan |-> nan, p |-> p, expect |-> ExpectedClass,
+                             search |-> IF ExpectedClass = "OK" THEN SearchCount ELSE 0])>>)
 =============================================================================
